@@ -200,6 +200,18 @@ func c03Stress(kind string, n int) string {
 		return "counter c\n/a/ {\n  c = " + rep("(", n) + "1" + rep(")", n) + "\n}\n"
 	case "tilde":
 		return "counter c\n/a/ {\n  c = " + rep("~", n) + "1\n}\n"
+	case "tilde-id":
+		// the innermost operand is an identifier (the parser attaches an empty index list to it)
+		return "counter c\n/a/ {\n  c = " + rep("~", n) + "c\n}\n"
+	case "parens-id":
+		return "counter c\n/a/ {\n  c = " + rep("(", n) + "c" + rep(")", n) + "\n}\n"
+	case "blocks-empty":
+		// the innermost block is empty
+		return "counter c\n/b/ {\n  c++\n}\n" + rep("/a/ {\n", n) + rep("}\n", n)
+	case "deco-tower-empty":
+		return "counter c\n/b/ {\n  c++\n}\ndef d {\n  /a/ {\n    next\n  }\n}\n" + rep("@d {\n", n) + rep("}\n", n)
+	case "else-tower-empty":
+		return "counter c\n/b/ {\n  c++\n}\n" + rep("/a/ {\n} else {\n", n) + rep("}\n", n)
 	case "chain-add":
 		return "counter c\n/a/ {\n  c = 1" + rep(" + c", n) + "\n}\n"
 	case "chain-and":
@@ -262,7 +274,7 @@ func c03Stress(kind string, n int) string {
 	return ""
 }
 
-var c03StressKinds = []string{"parens", "tilde", "chain-add", "chain-and", "chain-right", "blocks", "else-tower", "deco-tower", "nested-int", "index-tower", "long-regex", "counted-repetition", "const-concat", "const-doubling", "unterminated-string", "unterminated-regex", "huge-int", "many-decls", "buckets"}
+var c03StressKinds = []string{"parens", "parens-id", "tilde", "tilde-id", "blocks-empty", "deco-tower-empty", "else-tower-empty", "chain-add", "chain-and", "chain-right", "blocks", "else-tower", "deco-tower", "nested-int", "index-tower", "long-regex", "counted-repetition", "const-concat", "const-doubling", "unterminated-string", "unterminated-regex", "huge-int", "many-decls", "buckets"}
 
 func splitTokens(s string) []string {
 	var toks []string
@@ -333,6 +345,28 @@ func TestC03(t *testing.T) {
 						hangExit(c, f)
 					}
 					st.Violate(t, f, c, "stress")
+					return
+				}
+			}
+		}
+		// 1b. every nesting depth around the recursion limit, for every nesting shape
+		// (an off-by-one or a nil position shows at exactly one depth)
+		sweep := 0
+		for _, kind := range []string{"parens", "parens-id", "tilde", "tilde-id", "chain-add", "chain-and", "chain-right", "blocks", "blocks-empty", "else-tower", "else-tower-empty", "deco-tower", "deco-tower-empty", "nested-int", "index-tower"} {
+			for d := 1; d <= 130; d++ {
+				sweep++
+				if sweep%shards != shard {
+					continue
+				}
+				c := c03Case{Src: vstat.Q(c03Stress(kind, d)), NoDet: true}
+				f, res := runC03(c)
+				record(c, res)
+				st.Class("depth-sweep:" + kind)
+				if f != nil {
+					if res.hang {
+						hangExit(c, f)
+					}
+					st.Violate(t, f, c, "depth-sweep")
 					return
 				}
 			}
